@@ -695,8 +695,15 @@ func NewPeerGroupFromConfigStruct(pconf *PeerGroup) *api.PeerGroup {
 	afiSafis := make([]*api.AfiSafi, 0, len(pconf.AfiSafis))
 	for _, f := range pconf.AfiSafis {
 		if afiSafi := newAfiSafiFromConfigStruct(&f); afiSafi != nil {
-			afiSafi.AddPaths.Config.Receive = pconf.AddPaths.Config.Receive
-			afiSafi.AddPaths.Config.SendMax = uint32(pconf.AddPaths.Config.SendMax)
+			// the group-level setting fills in only where the family says
+			// nothing of its own
+			receive := f.AddPaths.Config.Receive || pconf.AddPaths.Config.Receive
+			sendMax := f.AddPaths.Config.SendMax
+			if sendMax == 0 {
+				sendMax = pconf.AddPaths.Config.SendMax
+			}
+			afiSafi.AddPaths.Config.Receive = receive
+			afiSafi.AddPaths.Config.SendMax = uint32(sendMax)
 			afiSafis = append(afiSafis, afiSafi)
 		}
 	}
